@@ -9,6 +9,15 @@
 #ifndef C20_HAS_BF_MEMPTR_RV
     #define C20_HAS_BF_MEMPTR_RV 1 // likewise: bind_front(pointer to member, object) called through an rvalue wrapper compiles
 #endif
+#ifndef C20_HAS_BF_MEMPTR_LV
+    #define C20_HAS_BF_MEMPTR_LV 1 // likewise: bind_front(&S::f /* & qualified */, object) called through an lvalue wrapper compiles
+#endif
+#ifndef C20_HAS_TCAT0
+    #define C20_HAS_TCAT0 1 // likewise: etl::tuple_cat() with no argument compiles
+#endif
+#ifndef C20_HAS_MFT_NARROW
+    #define C20_HAS_MFT_NARROW 1 // likewise: make_from_tuple<T>(t) compiles when T's parameters narrow the elements
+#endif
 #ifndef C20_PART
     #define C20_PART 99
 #endif
@@ -110,14 +119,19 @@ template <> struct kind<2> { using elem = Mo;        using src = Mo; };
 template <> struct kind<3> { using elem = Co;        using src = Co; };
 template <> struct kind<4> { using elem = int&;      using src = int; };
 template <> struct kind<5> { using elem = int const; using src = int; };
+// pair lines only (the tuple and tuple_cat kind lists do not contain them): references to the instrumented class.  Construction
+// binds (no copy, nothing moved from); assignment assigns through to the referent; forward<Trk&>(p.first) is an lvalue.
+template <> struct kind<6> { using elem = Trk&;       using src = Trk; };
+template <> struct kind<7> { using elem = Trk const&; using src = Trk; };
 template <int K> using elem_t = typename kind<K>::elem;
 template <int K> using src_t  = typename kind<K>::src;
+template <int K> inline constexpr bool is_refk = std::is_reference_v<elem_t<K>>; // 4, 6, 7
 
-// initialiser of an element of kind K: the referent for int&, a prvalue otherwise
+// initialiser of an element of kind K: the referent for a reference kind, a prvalue otherwise
 template <int K>
-inline auto arg(src_t<K>& referent, int v) -> std::conditional_t<K == 4, int&, src_t<K>>
+inline auto arg(src_t<K>& referent, int v) -> std::conditional_t<is_refk<K>, src_t<K>&, src_t<K>>
 {
-    if constexpr (K == 4) {
+    if constexpr (is_refk<K>) {
         (void)v;
         return referent;
     } else {
@@ -125,12 +139,15 @@ inline auto arg(src_t<K>& referent, int v) -> std::conditional_t<K == 4, int&, s
         return src_t<K>(v);
     }
 }
-// "rvalue source" of kind K: int& can only be bound to an lvalue
+// "rvalue source" of kind K: a reference element is bound to the lvalue referent
 template <int K, typename S>
-inline auto rv(S& x) -> std::conditional_t<K == 4, S&, S&&>
+inline auto rv(S& x) -> std::conditional_t<is_refk<K>, S&, S&&>
 {
-    if constexpr (K == 4) { return x; } else { return std::move(x); }
+    if constexpr (is_refk<K>) { return x; } else { return std::move(x); }
 }
+// what the result of get<I>(rvalue pair) initialises: an object of the class for a value kind (so that a move is observed);
+// for a reference kind get<I>(move(p)) is the lvalue referent itself, and a reference is bound to it (nothing moved, no copy)
+template <int K> using hold_t = std::conditional_t<is_refk<K>, elem_t<K>, src_t<K>>;
 
 // ---------------------------------------------------------------- call log
 struct Entry {
@@ -270,6 +287,8 @@ inline std::string res(std::string r, std::string a, std::string b)
 namespace part {
 std::string pair_e(Line const& l);
 std::string pair_s(Line const& l);
+std::string pairx_e(Line const& l);   // pair lines with an element kind 6 / 7, and the mixed-kind ops xassign / xmassign
+std::string pairx_s(Line const& l);
 std::string tuple_e0(Line const& l);
 std::string tuple_e1(Line const& l);
 std::string tuple_e2(Line const& l);
@@ -292,6 +311,7 @@ std::string bf_s0(Line const& l);
 std::string bf_s1(Line const& l);
 std::string ifn_new();
 std::string ifn_step(Line const& l);
+std::string mft_line(Line const& l);  // make_from_tuple into target types that tell T(..) from T{..}
 } // namespace part
 
 // ---------------------------------------------------------------- targets of invoke: functions, a class with ref-qualified members
@@ -437,7 +457,7 @@ inline std::string pair_op(std::string const& op, std::vector<long long> const& 
     }
     if (op == "swap" || op == "fswap" || op == "selfswap") {
         // (etl::is_nothrow_swappable<T const> is a hard error, so std::is_swappable_v cannot be asked about etl::pair<.., T const>)
-        constexpr bool can_swap = K1 != 5 && K2 != 5;
+        constexpr bool can_swap = K1 != 5 && K2 != 5 && K1 != 7 && K2 != 7;
         static_assert(std::is_swappable_v<std::pair<elem_t<K1>, elem_t<K2>>> == can_swap);
         if constexpr (can_swap) {
             O o(a[0], a[1]), q(b[0], b[1]);
@@ -480,16 +500,16 @@ inline std::string pair_op(std::string const& op, std::vector<long long> const& 
     if (op == "getr") {
         O o(a[0], a[1]);
         g_copies = 0;
-        S1 v0(L::template get<0>(std::move(o.p)));
-        S2 v1(L::template get<1>(std::move(o.p)));
+        hold_t<K1> v0(L::template get<0>(std::move(o.p)));
+        hold_t<K2> v1(L::template get<1>(std::move(o.p)));
         return res(fmt_vals({val(v0), val(v1)}), o.vals(), proto::fmt_list(b));
     }
     if (op == "getcr") {
         if constexpr (K1 != 2 && K2 != 2) {
             O o(a[0], a[1]);
             g_copies = 0;
-            S1 v0(L::template get<0>(std::move(std::as_const(o.p))));
-            S2 v1(L::template get<1>(std::move(std::as_const(o.p))));
+            hold_t<K1> v0(L::template get<0>(std::move(std::as_const(o.p))));
+            hold_t<K2> v1(L::template get<1>(std::move(std::as_const(o.p))));
             return res(fmt_vals({val(v0), val(v1)}), o.vals(), proto::fmt_list(b));
         } else return na;
     }
@@ -504,7 +524,7 @@ inline std::string pair_op(std::string const& op, std::vector<long long> const& 
                 return res(same ? fmt_vals({val(L::template get_t<elem_t<K1>>(o.p)), val(L::template get_t<elem_t<K2>>(o.p))}) : "!alias", o.vals(), proto::fmt_list(b));
             }
             // (libstdc++ 12: std::get<T&>(pair<T&, U>&&) does not compile - it returns std::move(p.first) - so reference kinds are left out)
-            if constexpr (K1 != 4 && K2 != 4) {
+            if constexpr (!is_refk<K1> && !is_refk<K2>) {
                 S1 v0(L::template get_t<elem_t<K1>>(std::move(o.p)));
                 S2 v1(L::template get_t<elem_t<K2>>(std::move(o.p)));
                 return res(fmt_vals({val(v0), val(v1)}), o.vals(), proto::fmt_list(b));
@@ -525,16 +545,104 @@ inline std::string pair_op(std::string const& op, std::vector<long long> const& 
     return "bad-op";
 }
 
+// converting assignment between pairs of different element kinds: pair<KD1,KD2> a; pair<KS1,KS2> b;
+// xassign: a = as_const(b) (operator=(pair<U1,U2> const&)); xmassign: a = move(b) (operator=(pair<U1,U2>&&))
+template <typename L, int KD1, int KD2, int KS1, int KS2>
+inline std::string pair_xop(std::string const& op, std::vector<long long> const& a, std::vector<long long> const& b)
+{
+    using OD = POp<L, KD1, KD2>;
+    using OS = POp<L, KS1, KS2>;
+    using PD = typename OD::P;
+    using PS = typename OS::P;
+    using StdD = std::pair<elem_t<KD1>, elem_t<KD2>>;
+    using StdS = std::pair<elem_t<KS1>, elem_t<KS2>>;
+    auto const na = std::string("n/a");
+    if (op == "xassign") {
+        static_assert(std::is_assignable_v<PD&, PS const&> == std::is_assignable_v<StdD&, StdS const&>);
+        if constexpr (std::is_assignable_v<PD&, PS const&>) {
+            OD o(a[0], a[1]); OS q(b[0], b[1]);
+            g_copies = 0;
+            PD& ret = (o.p = std::as_const(q.p));
+            if (&ret != &o.p) return "!return";
+            return res("-", o.vals(), q.vals());
+        } else return na;
+    }
+    if (op == "xmassign") {
+        static_assert(std::is_assignable_v<PD&, PS&&> == std::is_assignable_v<StdD&, StdS&&>);
+        if constexpr (std::is_assignable_v<PD&, PS&&>) {
+            OD o(a[0], a[1]); OS q(b[0], b[1]);
+            g_copies = 0;
+            PD& ret = (o.p = std::move(q.p));
+            if (&ret != &o.p) return "!return";
+            return res("-", o.vals(), q.vals());
+        } else return na;
+    }
+    return "bad-op";
+}
+// the instantiated (destination kinds, source kinds) of xassign / xmassign: the list XKINDS of checks/props/c20.py
+template <typename L>
+inline std::string pair_xline(std::string const& op, std::vector<long long> const& t, std::vector<long long> const& u,
+                              std::vector<long long> const& a, std::vector<long long> const& b)
+{
+    if (t.size() != 2 || u.size() != 2) return "bad-op";
+    long long const key = t[0] * 1000 + t[1] * 100 + u[0] * 10 + u[1];
+    switch (key) {
+    case 1166: return pair_xop<L, 1, 1, 6, 6>(op, a, b); // pair<Trk,Trk> = pair<Trk&,Trk&>
+    case 6611: return pair_xop<L, 6, 6, 1, 1>(op, a, b); // pair<Trk&,Trk&> = pair<Trk,Trk>
+    case 1177: return pair_xop<L, 1, 1, 7, 7>(op, a, b); // pair<Trk,Trk> = pair<Trk const&,Trk const&>
+    case 6677: return pair_xop<L, 6, 6, 7, 7>(op, a, b); // pair<Trk&,Trk&> = pair<Trk const&,Trk const&>
+    case 6116: return pair_xop<L, 6, 1, 1, 6>(op, a, b); // pair<Trk&,Trk> = pair<Trk,Trk&>
+    case 1666: return pair_xop<L, 1, 6, 6, 6>(op, a, b); // pair<Trk,Trk&> = pair<Trk&,Trk&>  (one element kind in common)
+    case 1617: return pair_xop<L, 1, 6, 1, 7>(op, a, b); // pair<Trk,Trk&> = pair<Trk,Trk const&>
+    case 440:  return pair_xop<L, 0, 4, 4, 0>(op, a, b); // pair<int,int&> = pair<int&,int>
+    case 7111: return pair_xop<L, 7, 1, 1, 1>(op, a, b); // pair<Trk const&,Trk> = ...: not assignable (n/a)
+    case 1116: return pair_xop<L, 1, 1, 1, 6>(op, a, b); // pair<Trk,Trk> = pair<Trk,Trk&>
+    }
+    return "bad-op";
+}
 template <typename L, int K1>
 inline std::string pair_k2(int k2, std::string const& op, std::vector<long long> const& a, std::vector<long long> const& b)
 {
-    switch (k2) {
-    case 0: return pair_op<L, K1, 0>(op, a, b);
-    case 1: return pair_op<L, K1, 1>(op, a, b);
-    case 2: return pair_op<L, K1, 2>(op, a, b);
-    case 3: return pair_op<L, K1, 3>(op, a, b);
-    case 4: return pair_op<L, K1, 4>(op, a, b);
-    case 5: return pair_op<L, K1, 5>(op, a, b);
+    if constexpr (K1 < 6) {
+        switch (k2) {
+        case 0: return pair_op<L, K1, 0>(op, a, b);
+        case 1: return pair_op<L, K1, 1>(op, a, b);
+        case 2: return pair_op<L, K1, 2>(op, a, b);
+        case 3: return pair_op<L, K1, 3>(op, a, b);
+        case 4: return pair_op<L, K1, 4>(op, a, b);
+        case 5: return pair_op<L, K1, 5>(op, a, b);
+        }
+    } else {
+        // kinds 6 / 7 are instantiated with each other and with the partner kinds {0, 1, 4} only (compile time)
+        switch (k2) {
+        case 0: return pair_op<L, K1, 0>(op, a, b);
+        case 1: return pair_op<L, K1, 1>(op, a, b);
+        case 4: return pair_op<L, K1, 4>(op, a, b);
+        case 6: return pair_op<L, K1, 6>(op, a, b);
+        case 7: return pair_op<L, K1, 7>(op, a, b);
+        }
+    }
+    return "bad-op";
+}
+// pair lines of the translation units pairx_e / pairx_s: an element kind 6 / 7, or a mixed-kind op
+template <typename L>
+inline std::string pairx_line(Line const& l)
+{
+    auto const& op = l.str("op");
+    auto const& a  = l.list("a");
+    auto const& b  = l.list("b");
+    auto const& t  = l.list("t");
+    if (a.size() != 2 || b.size() != 2 || t.size() != 2) return "bad-op";
+    if (op == "xassign" || op == "xmassign") return l.has("u") ? pair_xline<L>(op, t, l.list("u"), a, b) : std::string("bad-op");
+    int const k1 = int(t[0]), k2 = int(t[1]);
+    if (k1 == 6) return pair_k2<L, 6>(k2, op, a, b);
+    if (k1 == 7) return pair_k2<L, 7>(k2, op, a, b);
+    if (k2 == 6 || k2 == 7) {
+        switch (k1) {
+        case 0: return k2 == 6 ? pair_op<L, 0, 6>(op, a, b) : pair_op<L, 0, 7>(op, a, b);
+        case 1: return k2 == 6 ? pair_op<L, 1, 6>(op, a, b) : pair_op<L, 1, 7>(op, a, b);
+        case 4: return k2 == 6 ? pair_op<L, 4, 6>(op, a, b) : pair_op<L, 4, 7>(op, a, b);
+        }
     }
     return "bad-op";
 }
@@ -548,6 +656,9 @@ inline std::string pair_line(Line const& l)
     if (op == "cmp") return pair_cmp<L>(l.str("e"), a, b);
     auto const& t = l.list("t");
     if (t.size() != 2) return "bad-op";
+    if (op == "xassign" || op == "xmassign" || t[0] >= 6 || t[1] >= 6) {
+        if constexpr (L::is_etl) return part::pairx_e(l); else return part::pairx_s(l);
+    }
     switch (t[0]) {
     case 0: return pair_k2<L, 0>(int(t[1]), op, a, b);
     case 1: return pair_k2<L, 1>(int(t[1]), op, a, b);
@@ -564,6 +675,12 @@ std::string part::pair_e(Line const& l) { return pair_line<E>(l); }
 #endif
 #if C20_IN(1)
 std::string part::pair_s(Line const& l) { return pair_line<S>(l); }
+#endif
+#if C20_IN(24)
+std::string part::pairx_e(Line const& l) { return pairx_line<E>(l); }
+#endif
+#if C20_IN(25)
+std::string part::pairx_s(Line const& l) { return pairx_line<S>(l); }
 #endif
 
 // ---------------------------------------------------------------- tuple (any list of element kinds, arity 1..3)
@@ -1129,8 +1246,20 @@ inline std::string tcat_line(Line const& l)
     auto const& k  = l.list("k");
     long long n    = 0;
     for (auto x : ts) { if (x < 1 || x > 2) return "bad-op"; n += x; }
-    if (ts.empty() || ts.size() > 3 || n != (long long)v.size() || k.size() != v.size()) return "bad-op";
+    if (ts.size() > 3 || n != (long long)v.size() || k.size() != v.size()) return "bad-op";
     long long q = l.i("q");
+    if (ts.empty()) {
+        // tuple_cat() with no argument: the empty tuple
+        if constexpr (G == 0) {
+            if constexpr (L::is_etl && !C20_HAS_TCAT0) return "nc";
+            else {
+                auto c = L::tuple_cat();
+                static_assert(std::is_same_v<decltype(c), typename L::template tuple<>>);
+                (void)c;
+                return "r=[] a=[] cp=0";
+            }
+        } else return "bad-op";
+    }
     int iv[6];
     for (std::size_t i = 0; i < v.size(); ++i) iv[i] = static_cast<int>(v[i]);
     bool uni = true;
@@ -1502,7 +1631,10 @@ inline std::string bf_line(Line const& l)
                 else return q == 0 ? g() : std::as_const(g)();
             };
             if (!rv_ok && q >= 2) return "nc";
-            if (o == "obj") r = go(L::bind_front(&Sc::dm, s));
+            if (o == "obj") {
+                if constexpr (!L::is_etl || C20_HAS_BF_MEMPTR_LV) r = go(L::bind_front(&Sc::dm, s));
+                else return "nc";
+            }
             else if (o == "ptr") r = go(L::bind_front(&Sc::dm, &s));
             else if (o == "cptr") r = go(L::bind_front(&Sc::dm, cps));
             else if (o == "refw") r = go(L::bind_front(&Sc::dm, L::ref(s)));
@@ -1515,7 +1647,10 @@ inline std::string bf_line(Line const& l)
             if (!rv_ok && q >= 2) return "nc";
             if (o == "obj") {
                 switch (q) {
-                case 0: { auto g = L::bind_front(static_cast<pmf_l>(&Sc::q), s); r = g(xv); break; }
+                case 0:
+                    // (a tree whose lvalue call hands the bound object on as an rvalue cannot compile this call: "nc")
+                    if constexpr (!L::is_etl || C20_HAS_BF_MEMPTR_LV) { auto g = L::bind_front(static_cast<pmf_l>(&Sc::q), s); r = g(xv); break; }
+                    else return "nc";
                 case 1: { auto const g = L::bind_front(static_cast<pmf_c>(&Sc::q), s); r = g(xv); break; }
                 default:
                     if constexpr (rv_ok) {
@@ -1671,6 +1806,13 @@ inline std::string typeq_line(Line const& l)
                                   typename L::template tuple<int, long, Mo>>);
     if (q == "tuple_cat_keeps_ref")
         return yes(std::is_same_v<decltype(L::tuple_cat(std::declval<typename L::template tuple<int&>>())), typename L::template tuple<int&>>);
+    if (q == "tuple_cat_no_args") {
+        if constexpr (L::is_etl && !C20_HAS_TCAT0) return "nc";
+        else return yes(std::is_same_v<decltype(L::tuple_cat()), typename L::template tuple<>>);
+    }
+    if (q == "tuple_cat_pair_elements")
+        return yes(std::is_same_v<decltype(L::tuple_cat(std::declval<typename L::template pair<int&, Mo>>(), std::declval<typename L::template tuple<int const> const&>())),
+                                  typename L::template tuple<int&, Mo, int const>>);
     if (q == "tuple_cat_keeps_nested")
         return yes(std::is_same_v<decltype(L::tuple_cat(std::declval<typename L::template tuple<typename L::template tuple<int>>>())),
                                   typename L::template tuple<typename L::template tuple<int>>>);
@@ -1770,52 +1912,67 @@ static_assert(sizeof(Clo<0, 8, false>) == 8 && sizeof(Clo<0, 12, true>) == 12 &&
 static_assert(std::is_trivially_copyable_v<Clo<0, 16, false>> && !std::is_trivially_copyable_v<Clo<0, 16, true>>);
 
 using Sig1 = long long(int);
+// The named objects of a history belong to three specialisations (class 0: objects 0..2, class 1: objects 3..4, class 2:
+// object 5).  Construction / assignment across classes goes through the converting constructors; it compiles when the
+// destination's capacity and alignment accept the source's (is_valid_inplace_destination): class 0 from class 1 or 2.
 struct EtlSide {
     static constexpr int side = 0;
-    using Big   = etl::inplace_function<Sig1, 32>;
-    using Small = etl::inplace_function<Sig1, 16>;
+    template <int Cls>
+    using F = std::conditional_t<Cls == 0, etl::inplace_function<Sig1, 32>,
+              std::conditional_t<Cls == 1, etl::inplace_function<Sig1, 16>, etl::inplace_function<Sig1, 24, 8>>>;
 };
+static_assert(!std::is_same_v<EtlSide::F<0>, EtlSide::F<1>> && !std::is_same_v<EtlSide::F<0>, EtlSide::F<2>> && !std::is_same_v<EtlSide::F<1>, EtlSide::F<2>>);
+static_assert(EtlSide::F<0>::capacity::value == 32 && EtlSide::F<1>::capacity::value == 16 && EtlSide::F<2>::capacity::value == 24);
+static_assert(EtlSide::F<0>::alignment::value % EtlSide::F<1>::alignment::value == 0 && EtlSide::F<0>::alignment::value % 8 == 0 && EtlSide::F<2>::alignment::value == 8);
 struct StdSide {
     static constexpr int side = 1;
-    using Big   = std::function<Sig1>;
-    using Small = std::function<Sig1>;
+    template <int Cls> using F = std::function<Sig1>;
 };
+constexpr int cap_of_class(int cls) { return cls == 0 ? 32 : cls == 1 ? 16 : 24; }
+constexpr bool from_ok(int dst, int src) { return dst == src || dst == 0; }
 
 template <typename Sd>
 struct Hist {
-    using Big   = typename Sd::Big;
-    using Small = typename Sd::Small;
-    using R     = Reg<Sd::side>;
-    std::optional<Big> o[3];
-    std::optional<Small> s;
+    template <int Cls> using F = typename Sd::template F<Cls>;
+    template <int Cls> struct Slot { static constexpr int cls = Cls; std::optional<F<Cls>> f; };
+    using R = Reg<Sd::side>;
+    static constexpr int n_obj = 6;
+    Slot<0> o0, o1, o2;
+    Slot<1> s3, s4;
+    Slot<2> a5;
 
-    void reset_all()
+    template <typename G>
+    auto with(long long i, G&& g)
     {
-        for (auto& x : o) x.reset();
-        s.reset();
+        switch (i) {
+        case 0: return g(o0);
+        case 1: return g(o1);
+        case 2: return g(o2);
+        case 3: return g(s3);
+        case 4: return g(s4);
+        default: return g(a5);
+        }
     }
     std::string fresh()
     {
-        reset_all();
+        for (int i = 0; i < n_obj; ++i) with(i, [](auto& x) { x.f.reset(); return 0; });
         std::string leak = R::live.empty() ? "" : " !leak(" + std::to_string(R::live.size()) + ")";
         R::live.clear();
         R::violation.clear();
-        for (auto& x : o) x.emplace();
-        s.emplace();
+        for (int i = 0; i < n_obj; ++i) with(i, [](auto& x) { x.f.emplace(); return 0; });
         g_log.clear();
         return "ok" + state() + leak;
     }
     std::string state()
     {
         std::vector<long long> e;
-        for (auto& x : o) e.push_back(static_cast<bool>(*x) ? 1 : 0);
-        e.push_back(static_cast<bool>(*s) ? 1 : 0);
+        for (int i = 0; i < n_obj; ++i) e.push_back(with(i, [](auto& x) { return static_cast<bool>(*x.f) ? 1 : 0; }));
         std::string r = " e=" + proto::fmt_list(e) + " live=" + std::to_string(R::live.size()) + " log=" + fmt_log();
         if (!R::violation.empty()) { r += " " + R::violation; }
         return r;
     }
-    // construct / assign a closure of run-time type ty = 2*sizeIndex + nontrivial
-    template <bool SmallCap, typename G>
+    // construct / assign a closure of run-time type ty = 2*sizeIndex + nontrivial; sizes 8, 12, 16, 24, 32 up to the capacity
+    template <int Cap, typename G>
     static bool with_clo(long long ty, int id, G&& g)
     {
         auto one = [&](auto tag) { typename decltype(tag)::type c(id); g(c); return true; };
@@ -1828,73 +1985,112 @@ struct Hist {
         case 4: return one(std::type_identity<Clo<sd, 16, false>>{});
         case 5: return one(std::type_identity<Clo<sd, 16, true>>{});
         }
-        if constexpr (!SmallCap) {
+        if constexpr (Cap >= 24) {
         switch (ty) {
         case 6: return one(std::type_identity<Clo<sd, 24, false>>{});
         case 7: return one(std::type_identity<Clo<sd, 24, true>>{});
+        }
+        }
+        if constexpr (Cap >= 32) {
+        switch (ty) {
         case 8: return one(std::type_identity<Clo<sd, 32, false>>{});
         case 9: return one(std::type_identity<Clo<sd, 32, true>>{});
         }
         }
         return false;
     }
-    template <bool SmallCap, typename F>
-    bool set_clo(std::optional<F>& dst, long long ty, int id, bool assign)
+    template <int Cap, typename Fn>
+    bool set_clo(std::optional<Fn>& dst, long long ty, int id, bool assign)
     {
-        return with_clo<SmallCap>(ty, id, [&](auto& c) {
+        return with_clo<Cap>(ty, id, [&](auto& c) {
             bool rvalue = id % 2 == 1;
             if (assign) { if (rvalue) *dst = std::move(c); else *dst = c; }
             else { dst.reset(); if (rvalue) dst.emplace(std::move(c)); else dst.emplace(c); }
         });
+    }
+    // object d is constructed (assign = false) or assigned from object src handed over as an expression of category q
+    template <typename D, typename S>
+    static void from(D& d, S& src, long long q, bool assign)
+    {
+        if (assign) {
+            switch (q) {
+            case 0: *d.f = *src.f; break;
+            case 1: *d.f = std::as_const(*src.f); break;
+            case 2: *d.f = std::move(*src.f); break;
+            default: *d.f = std::move(std::as_const(*src.f)); break;
+            }
+        } else {
+            d.f.reset();
+            switch (q) {
+            case 0: d.f.emplace(*src.f); break;
+            case 1: d.f.emplace(std::as_const(*src.f)); break;
+            case 2: d.f.emplace(std::move(*src.f)); break;
+            default: d.f.emplace(std::move(std::as_const(*src.f))); break;
+            }
+        }
     }
     std::string step(Line const& l)
     {
         auto const& op = l.str("op");
         long long i    = l.i("i");
         long long j    = l.i("j", -1);
-        if (i < 0 || i > 3 || j > 3) return "bad-op";
+        if (i < 0 || i >= n_obj || j >= n_obj) return "bad-op";
         g_log.clear();
         std::string r = "ok";
-        bool si = i == 3, sj = j == 3;
-        if (op == "ctor_empty") { if (si) { s.reset(); s.emplace(); } else { o[i].reset(); o[i].emplace(); } }
-        else if (op == "ctor_null") { if (si) { s.reset(); s.emplace(nullptr); } else { o[i].reset(); o[i].emplace(nullptr); } }
+        std::string const bad = "bad-op";
+        if (op == "ctor_empty") with(i, [](auto& d) { d.f.reset(); d.f.emplace(); return 0; });
+        else if (op == "ctor_null") with(i, [](auto& d) { d.f.reset(); d.f.emplace(nullptr); return 0; });
         else if (op == "ctor_fn" || op == "assign_fn") {
             bool as = op == "assign_fn";
-            bool ok = si ? set_clo<true>(s, l.i("ty"), int(l.i("id")), as) : set_clo<false>(o[i], l.i("ty"), int(l.i("id")), as);
-            if (!ok) return "bad-op";
-        } else if (op == "ctor_copy" || op == "ctor_move") {
-            if (si || j < 0 || i == j) return "bad-op";
-            bool mv = op == "ctor_move";
-            o[i].reset();
-            if (sj) { if (mv) o[i].emplace(std::move(*s)); else o[i].emplace(std::as_const(*s)); }
-            else { if (mv) o[i].emplace(std::move(*o[j])); else o[i].emplace(std::as_const(*o[j])); }
-        } else if (op == "assign" || op == "massign") {
-            if (j < 0 || (si && !sj)) return "bad-op";
-            bool mv = op == "massign";
-            if (si) { if (mv) *s = std::move(*s); else *s = std::as_const(*s); }
-            else if (sj) { if (mv) *o[i] = std::move(*s); else *o[i] = std::as_const(*s); }
-            else { if (mv) *o[i] = std::move(*o[j]); else *o[i] = std::as_const(*o[j]); }
-        } else if (op == "assign_null") { if (si) *s = nullptr; else *o[i] = nullptr; }
+            bool ok = with(i, [&](auto& d) { return set_clo<cap_of_class(std::remove_reference_t<decltype(d)>::cls)>(d.f, l.i("ty"), int(l.i("id")), as); });
+            if (!ok) return bad;
+        } else if (op == "ctor_copy" || op == "ctor_move" || op == "ctor_from" || op == "assign" || op == "massign" || op == "assign_from") {
+            // ctor_copy / assign: const lvalue source; ctor_move / massign: rvalue source; *_from: category q
+            bool as     = op == "assign" || op == "massign" || op == "assign_from";
+            long long q = (op == "ctor_copy" || op == "assign") ? 1 : (op == "ctor_move" || op == "massign") ? 2 : l.i("q", -1);
+            if (j < 0 || q < 0 || q > 3 || (!as && i == j)) return bad;
+            bool ok = with(i, [&](auto& d) {
+                return with(j, [&](auto& src) {
+                    using D = std::remove_reference_t<decltype(d)>;
+                    using S = std::remove_reference_t<decltype(src)>;
+                    if constexpr (from_ok(D::cls, S::cls)) { from(d, src, q, as); return true; }
+                    else return false;
+                });
+            });
+            if (!ok) return bad;
+        } else if (op == "assign_null") with(i, [](auto& d) { *d.f = nullptr; return 0; });
         else if (op == "swap" || op == "fswap") {
-            if (j < 0 || si != sj) return "bad-op";
+            if (j < 0) return bad;
             bool fr = op == "fswap";
-            if (si) { if (fr) { using std::swap; using etl::swap; swap(*s, *s); } else s->swap(*s); }
-            else { if (fr) { using std::swap; using etl::swap; swap(*o[i], *o[j]); } else o[i]->swap(*o[j]); }
+            bool ok = with(i, [&](auto& d) {
+                return with(j, [&](auto& src) {
+                    using D = std::remove_reference_t<decltype(d)>;
+                    using S = std::remove_reference_t<decltype(src)>;
+                    if constexpr (D::cls == S::cls) {
+                        if (fr) { using std::swap; using etl::swap; swap(*d.f, *src.f); } else d.f->swap(*src.f);
+                        return true;
+                    } else return false;
+                });
+            });
+            if (!ok) return bad;
         } else if (op == "call") {
             int x = int(l.i("x"));
             try {
-                long long v = si ? (*s)(x) : (*o[i])(x);
+                long long v = with(i, [&](auto& d) { return (*d.f)(x); });
                 r           = "r=" + std::to_string(v);
             } catch (harness_raise const&) { r = "bad_function_call"; }
             catch (std::bad_function_call const&) { r = "bad_function_call"; }
-        } else if (op == "bool") { r = std::string("b=") + ((si ? static_cast<bool>(*s) : static_cast<bool>(*o[i])) ? "1" : "0"); }
+        } else if (op == "bool") { r = std::string("b=") + (with(i, [](auto& d) { return static_cast<bool>(*d.f); }) ? "1" : "0"); }
         else if (op == "eqnull" || op == "nenull") {
             // f == nullptr / f != nullptr; the mirrored forms nullptr == f / nullptr != f must agree
-            bool e1 = si ? (*s == nullptr) : (*o[i] == nullptr), e2 = si ? (nullptr == *s) : (nullptr == *o[i]);
-            bool n1 = si ? (*s != nullptr) : (*o[i] != nullptr), n2 = si ? (nullptr != *s) : (nullptr != *o[i]);
-            if (e1 != e2 || n1 != n2) return "!eqnull";
-            r = std::string("b=") + ((op == "eqnull" ? e1 : n1) ? "1" : "0");
-        } else return "bad-op";
+            int code = with(i, [&](auto& d) {
+                bool e1 = *d.f == nullptr, e2 = nullptr == *d.f, n1 = *d.f != nullptr, n2 = nullptr != *d.f;
+                if (e1 != e2 || n1 != n2) return -1;
+                return (op == "eqnull" ? e1 : n1) ? 1 : 0;
+            });
+            if (code < 0) return "!eqnull";
+            r = std::string("b=") + (code ? "1" : "0");
+        } else return bad;
         return r + state();
     }
 };
@@ -1915,6 +2111,105 @@ std::string part::ifn_step(Line const& l)
 #endif
 
 #if C20_IN(23)
+// ---------------------------------------------------------------- make_from_tuple: target types that tell T(x...) from T{x...}
+// Every target records which of its constructors ran and what it received: 'c' a constructor with one parameter per argument
+// (aggregate: the members), 'l' the initializer_list constructor.
+namespace mft {
+struct Built {
+    char how;
+    std::vector<long long> v;
+};
+#define C20_MFT_CTORS(T, X, P)                                                                                         \
+    X T() : b{'c', {}} { }                                                                                             \
+    X T(P x) : b{'c', {x}} { }                                                                                         \
+    X T(P x, P y) : b{'c', {x, y}} { }                                                                                 \
+    X T(P x, P y, P z) : b{'c', {x, y, z}} { }
+struct Plain { Built b; C20_MFT_CTORS(Plain, , int) };
+struct IL { Built b; C20_MFT_CTORS(IL, , int) IL(std::initializer_list<int> l) : b{'l', {l.begin(), l.end()}} { } };
+struct ILW { Built b; C20_MFT_CTORS(ILW, , int) ILW(std::initializer_list<long> l) : b{'l', {l.begin(), l.end()}} { } };
+struct Tag { explicit Tag(char const*) { } };
+struct ILO { Built b; C20_MFT_CTORS(ILO, , int) ILO(std::initializer_list<Tag> l) : b{'l', {static_cast<long long>(l.size())}} { } };
+struct Agg { int a; int b; int c; };
+struct Expl { Built b; C20_MFT_CTORS(Expl, explicit, int) };
+struct Nar { Built b; C20_MFT_CTORS(Nar, , short) };
+static_assert(std::is_aggregate_v<Agg> && !std::is_aggregate_v<Plain>);
+template <typename T> Built built(T const& t) { return t.b; }
+inline Built built(Agg const& t) { return Built{'c', {t.a, t.b, t.c}}; }
+inline std::string fmt(Built const& b) { return std::string("r=") + b.how + proto::fmt_list(b.v); }
+
+template <typename L, typename E, std::size_t... I>
+auto make_src(std::vector<long long> const& a, bool as_pair, std::index_sequence<I...>)
+{
+    (void)a;
+    (void)as_pair;
+    return typename L::template tuple<std::conditional_t<true, E, std::integral_constant<std::size_t, I>>...>(static_cast<E>(a[I])...);
+}
+// T from a tuple (or a pair) of N elements of type E, handed over with category q
+template <typename L, typename T, typename E, std::size_t N>
+std::string run(long long q, std::vector<long long> const& a, bool as_pair, bool brace)
+{
+    if (brace) {
+        // the direct-list-initialisation T{e...} itself, compiled here (no library code): "-" when it is ill-formed
+        auto t = make_src<S, E>(a, false, std::make_index_sequence<N>{});
+        return [&]<std::size_t... I>(std::index_sequence<I...>) -> std::string {
+            if constexpr (requires { T{std::get<I>(t)...}; }) return fmt(built(T{std::get<I>(t)...}));
+            else return "r=-";
+        }(std::make_index_sequence<N>{});
+    }
+    auto go = [&](auto& t) { return with_cat(q, t, [](auto&& x) { return fmt(built(L::template make_from_tuple<T>(FWD(x)))); }); };
+    if constexpr (N == 2) {
+        if (as_pair) {
+            typename L::template pair<E, E> p(static_cast<E>(a[0]), static_cast<E>(a[1]));
+            return go(p);
+        }
+    }
+    auto t = make_src<L, E>(a, false, std::make_index_sequence<N>{});
+    return go(t);
+}
+template <typename L, typename T, typename E>
+std::string arity(long long q, std::vector<long long> const& a, bool as_pair, bool brace)
+{
+    switch (a.size()) {
+    case 0: return run<L, T, E, 0>(q, a, as_pair, brace);
+    case 1: return run<L, T, E, 1>(q, a, as_pair, brace);
+    case 2: return run<L, T, E, 2>(q, a, as_pair, brace);
+    case 3: return run<L, T, E, 3>(q, a, as_pair, brace);
+    }
+    return "bad-op";
+}
+template <typename L>
+std::string line(Line const& l)
+{
+    long long q    = l.i("q");
+    auto const& a  = l.list("a");
+    bool as_pair   = l.has("src") && l.str("src") == "pair";
+    bool brace     = l.has("form") && l.str("form") == "brace";
+    if (q < 0 || q > 3 || a.size() > 3 || (as_pair && a.size() != 2)) return "bad-op";
+    switch (l.i("tg")) {
+    case 0: return arity<L, Plain, int>(q, a, as_pair, brace);
+    case 1: return arity<L, IL, int>(q, a, as_pair, brace);
+    case 2: return arity<L, ILW, int>(q, a, as_pair, brace);
+    case 3: return arity<L, ILO, int>(q, a, as_pair, brace);
+    case 4: return arity<L, Agg, int>(q, a, as_pair, brace);
+    case 5: return arity<L, Expl, int>(q, a, as_pair, brace);
+    // narrowing parameters: T(e...) is fine, T{e...} ill-formed; when the tree under test cannot compile these calls
+    // (C20_HAS_MFT_NARROW = 0, from a compile probe) the line answers `nc`
+    case 6:
+        if constexpr (L::is_etl && !C20_HAS_MFT_NARROW) return brace ? arity<S, Agg, long>(q, a, as_pair, brace) : "nc";
+        else return arity<L, Agg, long>(q, a, as_pair, brace);
+    case 7:
+        if constexpr (L::is_etl && !C20_HAS_MFT_NARROW) return brace ? arity<S, Nar, int>(q, a, as_pair, brace) : "nc";
+        else return arity<L, Nar, int>(q, a, as_pair, brace);
+    }
+    return "bad-op";
+}
+} // namespace mft
+std::string part::mft_line(Line const& l)
+{
+    auto a = mft::line<E>(l);
+    return a + "\t" + mft::line<S>(l);
+}
+
 // ---------------------------------------------------------------- compile-time matrix: value categories (decltype)
 // Every obligation is "the etl expression has exactly the type of the std expression".  A failing
 // obligation is a compile error of this harness, which check.py reports as a machinery error.
@@ -2064,6 +2359,7 @@ int main(int argc, char** argv)
             auto a = h ? part::bf_e1(l) : part::bf_e0(l);
             return both(a, h ? part::bf_s1(l) : part::bf_s0(l));
         }
+        if (l.op == "mft") return part::mft_line(l);
         if (l.op == "new") return part::ifn_new();
         if (l.op == "ifn") return part::ifn_step(l);
         return "bad-op\tbad-op";
